@@ -78,6 +78,15 @@ func (w *World) buildCallGraph() {
 				}
 			case *ast.IncDecStmt:
 				recordFieldWrite(x.X, info, direct[fi])
+			case *ast.UnaryExpr:
+				// &T{...}: the new object's fields are initialised (a heap write to a fresh object)
+				if cl, ok := x.X.(*ast.CompositeLit); ok && x.Op == token.AND {
+					if st, ok := info.TypeOf(cl).Underlying().(*types.Struct); ok {
+						for i := 0; i < st.NumFields(); i++ {
+							direct[fi][fieldKey(info.TypeOf(cl), st.Field(i).Name())] = st.Field(i).Type()
+						}
+					}
+				}
 			}
 			return true
 		})
@@ -460,4 +469,28 @@ func (w *World) retObjSummary(fi *FuncInfo) psrc {
 		return pFresh // no pointer result was ever returned non-nil (or analysis still optimistic)
 	}
 	return p
+}
+
+// expandPreserves turns `preserves-existing` into one frame postcondition per struct field the function may write:
+// every object that existed before the call (reference below the allocation boundary at entry) keeps that field.
+func (w *World) expandPreserves() {
+	for _, fi := range w.pendingPreserves {
+		c := fi.Contract
+		if c == nil || !c.Preserves {
+			continue
+		}
+		var keys []string
+		for k := range w.modsets[fi] {
+			keys = append(keys, k)
+		}
+		sort.Strings(keys)
+		for _, k := range keys {
+			src := "(forall ((r Int)) (=> (< r allocTop) (= (" + k + " r) (old (" + k + " r)))))"
+			x, err := parseOneSX(src)
+			if err != nil {
+				continue
+			}
+			c.Ensures = append(c.Ensures, &Clause{Kind: "ensures", X: x, Src: src + "   (preserves-existing)", File: c.File, Line: c.Line})
+		}
+	}
 }
